@@ -11,7 +11,7 @@ if ROUND:
         try: items.append('   - ' + (json.load(open(f)).get('summary') or '')[:300].replace('\n', ' '))
         except Exception: pass
     if items:
-        avoid = '\nTwo earlier changes for this property already exist; yours must use DIFFERENT code sites or mechanisms than these:\n' + '\n'.join(items) + '\n'
+        avoid = '\nEarlier changes for this property already exist; yours must use DIFFERENT code sites or mechanisms than these:\n' + '\n'.join(items) + '\n'
 p = next(json.loads(l) for l in open('/verif/properties.jsonl') if json.loads(l)['id'] == pid)
 print(f"""You are testing how well a Go codebase's safety net catches subtle regressions. You work ONLY inside the scratch git worktree /tmp/mut{ROUND}-{pid}/wt (a checkout of the repository spikeekips/mitum, a Go blockchain node framework implementing the ISAAC consensus) and write your results to /tmp/mut{ROUND}-{pid}/out/. Do not read or write anything under /verif or /repo (other than through your worktree).
 
